@@ -335,6 +335,20 @@ func (c *client) connect1(ctx async.Context) (internalConn, status.Status) {
 	defer c.mu.Unlock()
 	c.connecting.Clear()
 
+	// The new connection can be closed already, for example when its handshake failed.
+	// Its close callback could run before the connection was added, or while this routine
+	// was still registered as connecting, so it did not start reconnecting.
+	// Drop the connection and handle it as a connect error.
+	if st.OK() && conn.Closed().IsSet() {
+		conns := c.conns.Load().remove(conn)
+		c.conns.Store(conns)
+		if conns.len() == 0 && c.connected_.IsSet() {
+			c.connected_.Unset()
+			c.disconnected_.Set()
+		}
+		conn, st = nil, statusConnClosed
+	}
+
 	// Return if connected
 	if st.OK() {
 		return conn, st
